@@ -51,16 +51,20 @@ theorem path_np {α : Type} (parse : String → Option String) (tok : String →
   · subst hf; exact pathFromExpr_returns parse tok
   · subst hf; exact parsedFromString_returns parse tok
 
+theorem callableFromExpr_returns {α : Type} (tok : String → α) :
+    (e : Expr) → (callableFromExpr tok e).Returns
+  | .group g _ => by simp only [callableFromExpr]; exact callableFromExpr_returns tok g
+  | .other k t s => by
+      unfold callableFromExpr
+      split <;> first | exact Outcome.returns_ok _ | exact Outcome.returns_err _ | simp_all
+  | .path _ _ => by simp only [callableFromExpr]; exact Outcome.returns_ok _
+  | .qpath _ _ _ => by simp only [callableFromExpr]; exact Outcome.returns_ok _
+  | .lit _ => by simp only [callableFromExpr]; exact Outcome.returns_err _
+  | .array _ _ _ => by simp only [callableFromExpr]; exact Outcome.returns_err _
+
 theorem callable_np {α : Type} (tok : String → α) : (callableHooks tok).NP := by
   constructor <;> intro f hf <;> simp [callableHooks] at hf
-  subst hf; intro e
-  cases e with
-  | other k t s => simp only []; split <;> first | exact Outcome.returns_ok _ | exact Outcome.returns_err _
-  | path _ _ => exact Outcome.returns_ok _
-  | qpath _ _ _ => exact Outcome.returns_ok _
-  | lit _ => exact Outcome.returns_err _
-  | group _ _ => exact Outcome.returns_err _
-  | array _ _ _ => exact Outcome.returns_err _
+  subst hf; exact callableFromExpr_returns tok
 
 theorem readCallable_returns (m : Meta) : (readCallable m).Returns := (callable_np id).fromMeta m
 theorem readPath_returns (o : Oracle) (m : Meta) : (readPath o m).Returns := (path_np _ id).fromMeta m
